@@ -52,7 +52,9 @@ TEXTS = ["a", "b", "c", "", "1", "01", "0x1", "0o1", "+1", "1.0", "1.00", "1e0",
          # 64-bit boundary band: the value of each is decided by the resolver model (C08), the loader must keep it
          "0xFFFFFFFFFFFFFFFF", "0x8000000000000000", "0x7FFFFFFFFFFFFFFF", "+9223372036854775808", "9223372036854775807",
          "-9223372036854775808", "9223372036854775808", "-9223372036854775809", "0o1000000000000000000000",
-         "0o777777777777777777777", "+18446744073709551615", "1e400", "-1e400", "4.9e-324", "0x", "0o8", "1_000"]
+         "0o777777777777777777777", "+18446744073709551615", "0x", "0o8", "1_000"]
+# (no overflowing / denormal decimals here: as mapping keys they collide after rounding, which the exact-decimal spec
+#  of the float value cannot see; rounding is C08's subject)
 STYLES = "PPPPPSDLF"
 
 
